@@ -1,9 +1,9 @@
-//! The two items the treap correspondence runs. Field by field the same as
-//! `lean/RlibModel/Model/TreapItems.lean` (`sumAdd`, `affHash`).
+//! The items the treap correspondence runs. Field by field the same as
+//! `lean/RlibModel/Model/TreapItems.lean` (`sumAdd`, `affHash`, `keyOnly`).
 use rlib_treap::{TreapItem, TreapItemSized};
 
 /// What the harness needs from an item besides rlib's two traits.
-pub trait HItem: TreapItem + TreapItemSized + Sized {
+pub trait HItem: TreapItem + TreapItemSized + Sized + Clone {
     type Tag;
     fn mk(v: i64) -> Self;
     fn own(&self) -> i128;
@@ -13,6 +13,7 @@ pub trait HItem: TreapItem + TreapItemSized + Sized {
 }
 
 /// rlib's own test item (`ItemSized`): value, subtree sum, pending addend, size.
+#[derive(Clone)]
 pub struct SumIt {
     pub x: i64,
     pub sm: i64,
@@ -75,6 +76,7 @@ impl HItem for SumIt {
 
 /// Integer elements, affine tags `e -> a*e + b` (they do not commute), positional hash
 /// `(2^len, sum e_i * 2^(len-1-i))` as the aggregate (its monoid does not commute either).
+#[derive(Clone)]
 pub struct AffIt {
     pub x: i128,
     pub pw: i128,
@@ -147,3 +149,15 @@ impl HItem for AffIt {
         self.modify_by(m.0, m.1)
     }
 }
+
+/// The item of rlib's own `set` test: a bare key. It relies on the DEFAULT (empty) bodies of
+/// `TreapItem::update` / `TreapItem::push` and does not implement `TreapItemSized`, so only
+/// `new / from_item / merge / split_by / first / last / collect / collect_into` exist for it.
+/// (Lean twin `keyOnly`: the same with a ghost size, compared with the node count the harness reads
+/// through the public `left` / `right` fields.)
+#[derive(Clone)]
+pub struct KeyIt {
+    pub x: i64,
+}
+
+impl TreapItem for KeyIt {}
